@@ -657,3 +657,14 @@ package core
 //@   loop 3 invariant (forall g *metapb.StoreLabel :: {g.Value} old(allocated(g)) ==> g.Value == old(g.Value) && g.Key == old(g.Key)) && forall j :: {storeLabels[j]} 0 <= j && j < len(storeLabels) ==> storeLabels[j] != nil && (forall g *metapb.StoreLabel :: {old(allocated(g))} old(allocated(g)) ==> storeLabels[j] != g)
 //@   loop 4 invariant (forall g *metapb.StoreLabel :: {g.Value} old(allocated(g)) ==> g.Value == old(g.Value) && g.Key == old(g.Key)) && (forall j :: {storeLabels[j]} 0 <= j && j < len(storeLabels) ==> storeLabels[j] != nil && (forall g *metapb.StoreLabel :: {old(allocated(g))} old(allocated(g)) ==> storeLabels[j] != g)) && (forall j :: {res[j]} 0 <= j && j < len(res) ==> res[j] != nil && (forall g *metapb.StoreLabel :: {old(allocated(g))} old(allocated(g)) ==> res[j] != g))
 //@   modifies nothing
+
+// DeleteStore (tombstone cleanup, C14/C17): the weights are part of the store's record - LoadStores reads them back - so
+// they leave storage with it: a store id that registers again after the cleanup must not inherit weights that are not
+// served (stored record == served record after every successful change).
+//@ func (*Storage).DeleteStore
+//@   props C14 C17
+//@   option nosafety
+//@   ensures [the-weights-go-with-the-record] result == nil ==> !kvhas[callres("storeLeaderWeightPath", 1)] && !kvhas[callres("storeRegionWeightPath", 1)] && !kvhas[callres("storePath", 1)]
+//@   at storeLeaderWeightPath 1 assert [of-this-store] arg0 == ite(store == nil, 0, store.Id)
+//@   at storeRegionWeightPath 1 assert [of-this-store] arg0 == ite(store == nil, 0, store.Id)
+//@   modifies ghost kvhas, ghost kvval
